@@ -113,11 +113,13 @@ func (k Keeper) BeginBlockLaunchConsumers(ctx sdk.Context) error {
 			}
 			// also set the phase to registered
 			k.SetConsumerPhase(ctx, consumerId, types.CONSUMER_PHASE_REGISTERED)
+			ccv.VerifTrace(ctx, "PLaunchFail", "c", consumerId)
 
 			continue
 		}
 
 		writeFn()
+		ccv.VerifTrace(ctx, "PLaunchOK", "c", consumerId)
 	}
 	return nil
 }
@@ -235,6 +237,10 @@ func (k Keeper) LaunchConsumer(
 		return fmt.Errorf("computing consumer next validator set, consumerId(%s): %w", consumerId, err)
 	}
 
+	if err := ccv.VerifFail(ctx, "Launch:ComputeConsumerNextValSet"); err != nil {
+		return err
+	}
+
 	if len(initialValUpdates) == 0 {
 		return fmt.Errorf("cannot launch consumer with no consumer validator, consumerId(%s)", consumerId)
 	}
@@ -256,6 +262,9 @@ func (k Keeper) LaunchConsumer(
 	if err != nil {
 		return fmt.Errorf("setting consumer genesis state, consumerId(%s): %w", consumerId, err)
 	}
+	if err := ccv.VerifFail(ctx, "Launch:SetConsumerGenesis"); err != nil {
+		return err
+	}
 
 	// compute the hash of the consumer initial validator updates
 	updatesAsValSet, err := tmtypes.PB2TM.ValidatorUpdates(initialValUpdates)
@@ -268,6 +277,9 @@ func (k Keeper) LaunchConsumer(
 	err = k.CreateConsumerClient(ctx, consumerId, valsetHash)
 	if err != nil {
 		return fmt.Errorf("crating consumer client, consumerId(%s): %w", consumerId, err)
+	}
+	if err := ccv.VerifFail(ctx, "Launch:CreateConsumerClient"); err != nil {
+		return err
 	}
 
 	k.SetConsumerPhase(ctx, consumerId, types.CONSUMER_PHASE_LAUNCHED)
@@ -569,10 +581,12 @@ func (k Keeper) BeginBlockRemoveConsumers(ctx sdk.Context) error {
 			k.Logger(ctx).Error("consumer chain could not be removed",
 				"consumerId", consumerId,
 				"error", err.Error())
+			ccv.VerifTrace(ctx, "PRemoveFail", "c", consumerId)
 			continue
 		}
 
 		writeFn()
+		ccv.VerifTrace(ctx, "PRemoveOK", "c", consumerId)
 	}
 	return nil
 }
@@ -587,6 +601,9 @@ func (k Keeper) DeleteConsumerChain(ctx sdk.Context, consumerId string) (err err
 	// clean up states
 	k.DeleteConsumerClientId(ctx, consumerId)
 	k.DeleteConsumerGenesis(ctx, consumerId)
+	if err := ccv.VerifFail(ctx, "Delete:AfterGenesis"); err != nil {
+		return err
+	}
 	// Note: this call panics if the key assignment state is invalid
 	k.DeleteKeyAssignments(ctx, consumerId)
 	k.DeleteMinimumPowerInTopN(ctx, consumerId)
@@ -630,6 +647,9 @@ func (k Keeper) DeleteConsumerChain(ctx sdk.Context, consumerId string) (err err
 	k.DeleteConsumerRemovalTime(ctx, consumerId)
 
 	k.RemoveConsumerInfractionQueuedData(ctx, consumerId)
+	if err := ccv.VerifFail(ctx, "Delete:AfterCleanup"); err != nil {
+		return err
+	}
 
 	// TODO (PERMISSIONLESS) add newly-added state to be deleted
 
